@@ -150,6 +150,38 @@ def find_closures(m):
     return res
 
 
+def pin_hash(raw):
+    """sha256 of a function body made insensitive to edits that cannot change behaviour: comments, logging statements
+    (debug!/error!/..), indentation, trailing blanks and blank lines.  String literal contents are kept byte for byte."""
+    from normalise import strip_logging
+    body, _ = strip_logging(raw)
+    m = mask(body)
+    out = []
+    i, n = 0, len(body)
+    while i < n:
+        if body.startswith("//", i) and m[i] == " ":
+            j = body.find("\n", i)
+            i = n if j < 0 else j
+            continue
+        if body.startswith("/*", i) and m[i] == " ":
+            depth, j = 1, i + 2
+            while j < n and depth:
+                if body.startswith("/*", j):
+                    depth += 1
+                    j += 2
+                elif body.startswith("*/", j):
+                    depth -= 1
+                    j += 2
+                else:
+                    j += 1
+            i = j
+            continue
+        out.append(body[i])
+        i += 1
+    lines = [l.strip() for l in "".join(out).split("\n")]
+    return hashlib.sha256("\n".join(l for l in lines if l).encode()).hexdigest()
+
+
 def _closure_param_names(hdr):
     """Names bound by a closure header `|a: T, b| ...` (types dropped)."""
     h = hdr.strip()
@@ -296,7 +328,7 @@ def emit_fn(out, item, contract, mode, file, container, info, no_pub=False, cana
     body = None
     if has_body:
         raw = item.body()
-        sha = hashlib.sha256(raw.encode()).hexdigest()
+        sha = pin_hash(raw) if trusted else hashlib.sha256(raw.encode()).hexdigest()
         if not trusted:
             body, rules_log, nlog = normalise(raw, c.rules if (c and c.rules is not None) else None, c.n1_values if c else ())
             if c:
@@ -682,7 +714,7 @@ def generate(unit_name, repo=None, extra_fn_hook=None, canary=False, findings=Fa
         psf = SourceFile(pfile, open(ppath).read())
         pit = psf.find(pn["key"], pn.get("child"))
         raw = pit.body() if pit.body_open is not None else pit.text()
-        sha = hashlib.sha256(raw.encode()).hexdigest()
+        sha = pin_hash(raw)
         fkey = "%s :: %s%s" % (pfile, pn["key"], (" :: " + pn["child"]) if pn.get("child") else "")
         want = load_pins().get(fkey)
         info.setdefault("structural", []).append({
